@@ -121,7 +121,6 @@ def run(ctx):
 
 
 DATA_OWNERS = {
-    'Array._append': 'the appender (seek end, tofile, flush)',
     'Array.iterappend': 'first-chunk write for empty arrays; truncation back in the recovery handler',
     'truncate_array': 'shrinks the file under the 0 <= newlen < len guard',
     'asarray': 'creates the file',
@@ -130,6 +129,11 @@ DATA_OWNERS = {
 
 def d2_data_owners(ctx, committer, appenders):
     n = 0
+    owners = dict(DATA_OWNERS)
+    arr_app = [a for a in appenders if a.cls is not None and a.cls.name == 'Array' and
+               any(e.kind == 'WRITE-HANDLE' for e in ctx.E.primitives(a))]
+    for a in arr_app:
+        owners[a.qualname] = 'the appender, found by role (seek end, tofile, flush)'
     for f in ctx.repo.all_funcs():
         for e in ctx.E.primitives(f):
             role = e.role
@@ -153,10 +157,10 @@ def d2_data_owners(ctx, committer, appenders):
             n += 1
             construct = f'data-touch::{e.kind}'
             inst = f'{e.kind} on the data file: {norm(e.node)[:50]}'
-            if f.qualname not in DATA_OWNERS:
+            if f.qualname not in owners:
                 ctx.bad('R-OWN', 'D2', f, e.node, construct, inst,
                         detail='the data file is written/grown/resized outside the closed set of '
-                               f'owners {sorted(DATA_OWNERS)}: such a state is not one the descriptor '
+                               f'owners {sorted(owners)}: such a state is not one the descriptor '
                                f'bookkeeping and the recovery path account for')
                 continue
             if e.kind == 'RESIZE' and f.qualname == 'Array.iterappend':
@@ -173,10 +177,12 @@ def d2_data_owners(ctx, committer, appenders):
                            inst + ' (under the two-sided shrink guard)',
                            detail='os.truncate is not confined to the `0 <= newlen < len(a)` branch: it could grow the file')
                 continue
-            ctx.ok('R-OWN', 'D2', f, e.node, construct, inst + f' — owner: {DATA_OWNERS[f.qualname]}')
+            ctx.ok('R-OWN', 'D2', f, e.node, construct, inst + f' — owner: {owners[f.qualname]}')
     ctx.floor('C17 data-file touch sites', n, 6)
     # flush follows the write inside the appender
-    ap = ctx.repo.func('Array._append')
+    if not arr_app:
+        raise AnalysisError('Array appender (role) not found')
+    ap = arr_app[0]
     writes = [e for e in ctx.E.primitives(ap) if e.kind == 'WRITE-HANDLE']
     flushes = [e.node for e in ctx.E.primitives(ap) if e.kind == 'FLUSH']
     seeks = [e.node for e in ctx.E.primitives(ap) if e.kind == 'SEEK']
